@@ -105,7 +105,10 @@ impl Model for VecModel {
             stats.samples.push(format!("{} (len={},cap={},{:?}) --{:?}--> {} next={:?}", self.runner.name(), s.len, s.cap, s.spare, e, out.outcome, out.next));
         }
         let mut bad = self.classify(s, &e, &out, 0, &mut stats);
-        if self.faults && bad.is_none() {
+        // lying iterators and injected panics are separate dimensions of the quantifier (a lie that makes splice exceed a fixed
+        // capacity panics by contract; a second panic while unwinding would abort the process)
+        let lying = matches!(e, Edge::Splice { lie, .. } if lie != 0);
+        if self.faults && bad.is_none() && !lying {
             let n = out.user_calls;
             drop(stats);
             for k in 1..=n {
